@@ -261,23 +261,43 @@ func typeToks(kind Kind, typ string, n int, alias bool) []string {
 	panic("typeToks: " + kind.String())
 }
 
+// SpanKey identifies a declaration in a printed program.
+type SpanKey struct {
+	Node any // *Packet, *Field, *MetaEntry, *MetaBlock
+	Sub  int // -1 for the node itself; for *Field of kind Match: pair index; for nil Node: option index
+}
+
+// Spans maps declarations to [first,last] token indices of the printed program.
+type Spans map[SpanKey][2]int
+
 // Tokens prints the program as a token sequence (texts only); Render lays it out.
 func (p *Program) Tokens() []string {
+	t, _ := p.TokensSpans()
+	return t
+}
+
+// TokensSpans prints the program and records where every declaration went.
+func (p *Program) TokensSpans() ([]string, Spans) {
+	sp := Spans{}
 	var t []string
 	if len(p.Opts) > 0 {
 		t = append(t, "options", "{")
-		for _, o := range p.Opts {
+		for i, o := range p.Opts {
+			st := len(t)
 			t = append(t, o.Name, "=")
 			t = append(t, optValueToks(o.Value)...)
 			if o.Semi {
 				t = append(t, ";")
 			}
+			sp[SpanKey{nil, i}] = [2]int{st, len(t) - 1}
 		}
 		t = append(t, "}")
 	}
 	for _, mb := range p.Meta {
+		bst := len(t)
 		t = append(t, "MetaData", mb.Name, "{")
 		for _, e := range mb.Entries {
+			st := len(t)
 			if e.Kind == MetaRef {
 				t = append(t, e.Ref, e.Name)
 			} else {
@@ -288,20 +308,24 @@ func (p *Program) Tokens() []string {
 				t = append(t, "`"+e.Doc+"`")
 			}
 			t = append(t, ",")
+			sp[SpanKey{e, -1}] = [2]int{st, len(t) - 1}
 		}
 		t = append(t, "}")
+		sp[SpanKey{mb, -1}] = [2]int{bst, len(t) - 1}
 	}
 	for _, pk := range p.Packets {
+		st := len(t)
 		if pk.Root {
 			t = append(t, "root")
 		}
 		t = append(t, "packet", pk.Name, "{")
 		for _, f := range pk.Fields {
-			t = append(t, fieldToks(f, true)...)
+			t = fieldToks(t, f, sp)
 		}
 		t = append(t, "}")
+		sp[SpanKey{pk, -1}] = [2]int{st, len(t) - 1}
 	}
-	return t
+	return t, sp
 }
 
 func optValueToks(v string) []string {
@@ -313,8 +337,8 @@ func optValueToks(v string) []string {
 	return []string{v}
 }
 
-func fieldToks(f *Field, top bool) []string {
-	var t []string
+func fieldToks(t []string, f *Field, sp Spans) []string {
+	start := len(t)
 	if f.Tag > 0 {
 		t = append(t, "@tag(", fmt.Sprint(f.Tag), ")")
 	}
@@ -365,12 +389,13 @@ func fieldToks(f *Field, top bool) []string {
 		rep()
 		t = append(t, f.Ref, "{")
 		for _, s := range f.Sub {
-			t = append(t, fieldToks(s, false)...)
+			t = fieldToks(t, s, sp)
 		}
 		t = append(t, "}", ",")
 	case Match:
 		t = append(t, "match", f.Key, "as", f.Name, "{")
 		for i, pr := range f.Pairs {
+			pst := len(t)
 			if pr.List || len(pr.Keys) > 1 {
 				t = append(t, "[")
 				for j, k := range pr.Keys {
@@ -392,6 +417,9 @@ func fieldToks(f *Field, top bool) []string {
 					t = append(t, ",")
 				}
 			}
+			if sp != nil {
+				sp[SpanKey{f, i}] = [2]int{pst, len(t) - 1}
+			}
 		}
 		t = append(t, "}", ",")
 	case LenOf, Checksum:
@@ -411,6 +439,9 @@ func fieldToks(f *Field, top bool) []string {
 		}
 		doc()
 		t = append(t, ",")
+	}
+	if sp != nil {
+		sp[SpanKey{f, -1}] = [2]int{start, len(t) - 1}
 	}
 	return t
 }
@@ -529,3 +560,16 @@ func max0(n int) int {
 
 // Text is Render(Tokens(), Pretty).
 func (p *Program) Text() string { return Render(p.Tokens(), Pretty) }
+
+// TokenLines returns, for the layout given by gaps, the (first,last) 1-based line of every token.
+func TokenLines(toks, gaps []string) [][2]int {
+	out := make([][2]int, len(toks))
+	line := 1
+	for i, t := range toks {
+		line += strings.Count(gaps[i], "\n")
+		first := line
+		line += strings.Count(t, "\n")
+		out[i] = [2]int{first, line}
+	}
+	return out
+}
